@@ -127,6 +127,13 @@ def type_infer(t, *, forbid_internal=True):
                 else:
                     t.T = new_type()
                     incr_ctxt[t.name] = t.T
+            else:
+                # Type is given explicitly: it should agree with the type
+                # of the other occurrences of the variable in the term.
+                if t.name in incr_ctxt:
+                    unify(t.T, incr_ctxt[t.name])
+                elif t.name not in context.ctxt.vars:
+                    incr_ctxt[t.name] = t.T
             return t.T
 
         # Const case: if type is not known, obtain it from theory,
